@@ -342,6 +342,15 @@ func Adversarial() []AdvSet {
 			Why: "custom options (extensions declared in a proto3 file, cosmos_proto options) carried as unknown fields of the options messages"})
 	}
 	{
+		// an extension (custom option) declared INSIDE a proto3 message: legal, protoc-gen-go nests it as E_A_NestedOpt
+		fd := advFile("adv_nested_extension_decl", []M{{Name: "A", Fields: []F{{Name: "s", Num: 1, Kind: String}}}}, nil)
+		fd.Dependency = []string{"google/protobuf/descriptor.proto"}
+		fd.MessageType[0].Extension = []*descriptorpb.FieldDescriptorProto{{Name: proto.String("nested_opt"), JsonName: proto.String("nestedOpt"), Number: proto.Int32(50101),
+			Label: descriptorpb.FieldDescriptorProto_LABEL_OPTIONAL.Enum(), Type: String.Enum(), Extendee: proto.String(".google.protobuf.FieldOptions"), Proto3Optional: proto.Bool(true)}}
+		add(AdvSet{Set: Set{Name: "adv_nested_extension_decl", Files: []*descriptorpb.FileDescriptorProto{Registered("google/protobuf/descriptor.proto"), fd}, Generate: []string{fd.GetName()}, Param: "features=protoc+fast"},
+			Expect: ExpFiles, Why: "a custom option declared inside a message (message.Extensions is non-empty: the unmarshal template has an extension-range branch)"})
+	}
+	{
 		fd := advFile("adv_services_only", nil, nil)
 		fd.Dependency = []string{"google/protobuf/empty.proto"}
 		fd.Service = []*descriptorpb.ServiceDescriptorProto{svc("Query", [3]string{"Ping", ".google.protobuf.Empty", ".google.protobuf.Empty"}, [3]string{"StreamAll", ".google.protobuf.Empty", ".google.protobuf.Empty"}),
